@@ -1,7 +1,565 @@
 (* Lemmas about the concurrency path of Model/Hotspot.v (conc_check, conc_bump, Entry/Exit
-   histories) for property C06. *)
-From SG Require Import Base.Prelude Base.GoInt Model.LRU Model.Hotspot.
+   histories over several resources and rules) for property C06:
+   - in every reachable state of every history whose values fit the parameter capacity, the cell
+     of value v under a concurrency rule holds exactly the number of live entries of the resource
+     that were admitted with v under that rule (so it is 0 once they have all exited);
+   - an Entry on a resource guarded by concurrency rules is admitted iff for every rule the live
+     entries of its value are fewer than the value's threshold;
+   - Exit gives back exactly the units of the exiting entry's own values;
+   - the recorded finding's witness: beyond the capacity the cell of a value in flight is evicted. *)
+From SG Require Import Base.Prelude Base.GoInt Model.LRU Model.Hotspot
+  Proofs.LRUProofs Proofs.HotspotCtrlProofs Proofs.HotspotRunProofs.
 #[local] Open Scope Z_scope.
+
+(* ---- counters and the ledger of live entries ------------------------------------------------- *)
+
+(* content of the cell of v (an absent cell counts as 0) *)
+Definition cnt (l : lru Z) (v : Z) : Z := match alookup v l with Some x => x | None => 0 end.
+
+(* 1 if the live entry e = (resource, input) occupies value v under rule r of resource res *)
+Definition contrib (res : Z) (r : rule) (v : Z) (e : Z * req) : Z :=
+  if (fst e =? res) && (match extract r (snd e) with Some k => k =? v | None => false end) then 1 else 0.
+
+(* number of live entries of resource res admitted with value v under rule r *)
+Fixpoint live_count (res : Z) (r : rule) (v : Z) (live : list (Z * (Z * req))) : Z :=
+  match live with
+  | [] => 0
+  | (_, e) :: rest => contrib res r v e + live_count res r v rest
+  end.
+
+Lemma contrib_range res r v e : 0 <= contrib res r v e <= 1.
+Proof. unfold contrib. destruct (_ && _); lia. Qed.
+
+Lemma live_count_range res r v live : 0 <= live_count res r v live <= Z.of_nat (length live).
+Proof.
+  induction live as [|[k e] rest IH]; cbn [live_count length]; [lia|].
+  pose proof (contrib_range res r v e). lia.
+Qed.
+
+Lemma live_count_del res r v k e : forall live, alookup k live = Some e ->
+  live_count res r v live = contrib res r v e + live_count res r v (live_del k live).
+Proof.
+  induction live as [|[k' e'] rest IH]; cbn [alookup live_del live_count]; [discriminate|].
+  destruct (k =? k') eqn:E.
+  - intros [= ->]. reflexivity.
+  - intros H. cbn [live_count]. rewrite (IH H). lia.
+Qed.
+
+Lemma live_del_length k : forall live, (length (live_del k live) <= length live)%nat.
+Proof.
+  induction live as [|[k' e'] rest IH]; cbn [live_del length]; [lia|].
+  destruct (k =? k'); cbn [length]; lia.
+Qed.
+
+Lemma contrib_other_res res res' r v q : res' <> res -> contrib res' r v (res, q) = 0.
+Proof. intros H. unfold contrib. cbn [fst]. destruct (res =? res') eqn:E; [lia|reflexivity]. Qed.
+
+Lemma contrib_same res r v q :
+  contrib res r v (res, q) = match extract r q with Some k => if k =? v then 1 else 0 | None => 0 end.
+Proof. unfold contrib. cbn [fst snd]. rewrite Z.eqb_refl. cbn [andb]. destruct (extract r q); reflexivity. Qed.
+
+(* ---- the cell cache while the values fit --------------------------------------------------------- *)
+
+Definition is_conc (r : rule) : bool := r_metric r =? 0.
+
+Lemma cnt_add_if_absent cap (K : list Z) k l :
+  NoDup K -> Z.of_nat (length K) <= cap -> In k K -> real_key k ->
+  NoDup (lru_keys l) -> incl (lru_keys l) K ->
+  let l' := fst (lru_add_if_absent cap k 0 l) in
+  NoDup (lru_keys l') /\ incl (lru_keys l') K /\ (forall v, cnt l' v = cnt l v) /\
+  snd (lru_add_if_absent cap k 0 l) = alookup k l /\ alookup k l' <> None.
+Proof.
+  intros HK Hfit Hin Hr Hnd Hincl l'.
+  pose proof (lru_step_no_evict cap K l (OpAddIfAbsent k 0) HK Hfit Hin Hr Hnd Hincl) as H.
+  cbn [lru_step op_key] in H. cbn zeta in H. fold l' in H. destruct H as [H1 [H2 [H3 [H4 H5]]]].
+  repeat split; auto.
+  - intros v. unfold cnt. destruct (Z.eq_dec v k) as [->|Hne].
+    + rewrite H4. destruct (alookup k l); reflexivity.
+    + now rewrite (H3 v Hne).
+  - rewrite H4. discriminate.
+Qed.
+
+Lemma cnt_bump (K : list Z) k c x l :
+  In k K -> real_key k -> alookup k l = Some c -> NoDup (lru_keys l) -> incl (lru_keys l) K ->
+  let l' := lru_set k x (fst (lru_get k l)) in
+  NoDup (lru_keys l') /\ incl (lru_keys l') K /\ cnt l' k = x /\ (forall v, v <> k -> cnt l' v = cnt l v).
+Proof.
+  intros Hin Hr Hc Hnd Hincl l'. subst l'. rewrite (get_present k c l Hr Hc). cbn [fst].
+  rewrite set_front. rewrite keys_front. repeat split.
+  - now apply touch_nodup.
+  - now apply touch_incl.
+  - unfold cnt. now rewrite look_front.
+  - intros v Hne. unfold cnt. now rewrite (look_front_other k v x l Hne).
+Qed.
+
+(* ---- per-rule invariant --------------------------------------------------------------------------- *)
+
+Section Fits.
+Variable K : list Z.
+Hypothesis HK : NoDup K.
+
+(* the cell cache of concurrency rule r of resource res agrees with the ledger of live entries *)
+Definition CI (res : Z) (L : list (Z * (Z * req))) (r : rule) (m : metric) : Prop :=
+  is_conc r = true ->
+  NoDup (lru_keys (m_conc m)) /\ incl (lru_keys (m_conc m)) K /\
+  forall v, cnt (m_conc m) v = live_count res r v L.
+
+(* the cell of the value the request selects under r exists *)
+Definition Pres (q : req) (r : rule) (m : metric) : Prop :=
+  is_conc r = true -> forall k, extract r q = Some k -> alookup k (m_conc m) <> None.
+
+Fixpoint all2 (P : rule -> metric -> Prop) (rules : list rule) (ms : list metric) : Prop :=
+  match rules, ms with
+  | r :: rs, m :: mr => P r m /\ all2 P rs mr
+  | _, _ => True
+  end.
+
+Lemma all2_impl (P Q : rule -> metric -> Prop) rules : forall ms,
+  (forall r m, In r rules -> P r m -> Q r m) -> all2 P rules ms -> all2 Q rules ms.
+Proof.
+  induction rules as [|r rs IH]; intros ms H Ha; [destruct ms; exact I|].
+  destruct ms as [|m mr]; [exact I|]. cbn [all2] in *. destruct Ha as [H1 H2]. split.
+  - apply H; [left; reflexivity|exact H1].
+  - apply IH; [|exact H2]. intros r0 m0 Hin. apply H. right. exact Hin.
+Qed.
+
+Lemma all2_nth (P : rule -> metric -> Prop) rules : forall ms i r m,
+  all2 P rules ms -> nth_error rules i = Some r -> nth_error ms i = Some m -> P r m.
+Proof.
+  induction rules as [|r0 rs IH]; intros ms i r m Ha Hr Hm; [destruct i; discriminate|].
+  destruct ms as [|m0 mr]; [destruct i; discriminate|]. cbn [all2] in Ha. destruct Ha as [H1 H2].
+  destruct i as [|i]; cbn in Hr, Hm; [inversion Hr; inversion Hm; subst; exact H1|eauto].
+Qed.
+
+Lemma all2_init (P : rule -> metric -> Prop) rules : (forall r, P r metric0) ->
+  all2 P rules (map (fun _ => metric0) rules).
+Proof. intros H. induction rules as [|r rs IH]; [exact I|]. cbn. split; [apply H|exact IH]. Qed.
+
+(* the request's values lie in K and K fits every concurrency rule of the list *)
+Definition req_in (rules : list rule) (q : req) : Prop :=
+  forall r, In r rules -> is_conc r = true -> forall k, extract r q = Some k -> In k K /\ real_key k.
+Definition caps_fit (rules : list rule) : Prop :=
+  forall r, In r rules -> is_conc r = true -> Z.of_nat (length K) <= cache_size r.
+
+Lemma perform_checking_conc r m now k b : is_conc r = true ->
+  perform_checking r m now k b = conc_check r m k.
+Proof. unfold is_conc, perform_checking. intros ->. reflexivity. Qed.
+
+(* one concurrency check: the ledger relation is untouched, the cell of k exists afterwards, and
+   the decision compares (live entries of k) + 1 with the threshold of k *)
+Lemma conc_check_spec res L r m k :
+  is_conc r = true -> Z.of_nat (length K) <= cache_size r -> In k K -> real_key k ->
+  Z.of_nat (length L) < two62 -> CI res L r m ->
+  let n := live_count res r k L in
+  CI res L r (fst (conc_check r m k)) /\
+  alookup k (m_conc (fst (conc_check r m k))) <> None /\
+  snd (conc_check r m k) = if n <? tok_count r k then DPass else DBlock (Some (n + 1)).
+Proof.
+  intros Hc Hfit Hin Hr Hlen Hci n. destruct (Hci Hc) as [Hnd [Hincl Hcnt]].
+  destruct (cnt_add_if_absent (cache_size r) K k (m_conc m) HK Hfit Hin Hr Hnd Hincl)
+    as [H1 [H2 [H3 [H4 H5]]]].
+  unfold conc_check.
+  destruct (lru_add_if_absent (cache_size r) k 0 (m_conc m)) as [c1 prior]. cbn [fst snd] in *.
+  assert (Hcur : match prior with Some x => x | None => 0 end = n).
+  { subst prior. specialize (Hcnt k). unfold cnt in Hcnt. exact Hcnt. }
+  rewrite Hcur. pose proof (live_count_range res r k L) as Hrng. fold n in Hrng.
+  unfold two62 in Hlen. rewrite (i64_small (n + 1)) by lia.
+  assert (Hci' : CI res L r {| m_time := m_time m; m_tok := m_tok m; m_conc := c1 |}).
+  { intros _. cbn [m_conc]. repeat split; auto. intros v. rewrite H3. apply Hcnt. }
+  destruct (n + 1 <=? tok_count r k) eqn:E1; destruct (n <? tok_count r k) eqn:E2; try lia;
+    cbn [fst snd m_conc]; (split; [exact Hci'|]; split; [exact H5|reflexivity]).
+Qed.
+
+Lemma conc_check_threshold_zero res L r m k :
+  is_conc r = true -> Z.of_nat (length K) <= cache_size r -> In k K -> real_key k ->
+  Z.of_nat (length L) < two62 -> CI res L r m -> tok_count r k <= 0 ->
+  snd (conc_check r m k) = DBlock (Some (live_count res r k L + 1)).
+Proof.
+  intros Hc Hfit Hin Hr Hlen Hci HT.
+  destruct (conc_check_spec res L r m k Hc Hfit Hin Hr Hlen Hci) as [_ [_ H]]. rewrite H.
+  pose proof (live_count_range res r k L). destruct (live_count res r k L <? tok_count r k) eqn:E; [lia|reflexivity].
+Qed.
+
+(* ---- Slot.Check over the rules of a resource ------------------------------------------------------ *)
+
+Lemma slot_check_conc res L rules : forall ms i clk adv q,
+  caps_fit rules -> req_in rules q -> Z.of_nat (length L) < two62 ->
+  all2 (CI res L) rules ms ->
+  let '(ms', _, _, v) := slot_check i rules ms clk adv q in
+  all2 (CI res L) rules ms' /\ (v = VPass -> all2 (Pres q) rules ms').
+Proof.
+  induction rules as [|r rs IH]; intros ms i clk adv q Hcap Hreq Hlen Hall.
+  - cbn. destruct ms; split; auto.
+  - destruct ms as [|m mr]; [cbn; split; auto|].
+    cbn [all2] in Hall. destruct Hall as [Hm Hmr].
+    assert (Hcap' : caps_fit rs) by (intros r0 Hin; apply Hcap; right; exact Hin).
+    assert (Hreq' : req_in rs q) by (intros r0 Hin; apply Hreq; right; exact Hin).
+    cbn [slot_check]. destruct (extract r q) as [k|] eqn:Ex.
+    + (* what one check does to this rule's statistics *)
+      assert (Hstep : CI res L r (fst (perform_checking r m (ms_of_ns clk) k (q_batch q))) /\
+                      Pres q r (fst (perform_checking r m (ms_of_ns clk) k (q_batch q)))).
+      { destruct (is_conc r) eqn:Ec.
+        - rewrite (perform_checking_conc r m _ k _ Ec).
+          destruct (Hreq r ltac:(left; reflexivity) Ec k Ex) as [Hin Hr].
+          destruct (conc_check_spec res L r m k Ec (Hcap r ltac:(left; reflexivity) Ec) Hin Hr Hlen Hm)
+            as [H1 [H2 _]].
+          split; [exact H1|]. intros _ k0 Hk0. rewrite Ex in Hk0. inversion Hk0; subst. exact H2.
+        - split; intros H; unfold CI, Pres in *; congruence. }
+      destruct Hstep as [Hci1 Hpres1].
+      destruct (perform_checking r m (ms_of_ns clk) k (q_batch q)) as [m1 d]. cbn [fst] in *.
+      destruct d as [|tv|ns|].
+      * specialize (IH mr (i + 1) clk adv q Hcap' Hreq' Hlen Hmr).
+        destruct (slot_check (i + 1) rs mr clk adv q) as [[[mr1 clk1] sl] v].
+        destruct IH as [IH1 IH2]. split; [cbn; auto|]. intros Hv. cbn. auto.
+      * split; [cbn; auto|discriminate].
+      * destruct (0 <? ns).
+        -- specialize (IH mr (i + 1) (if adv then u64 (clk + ns) else clk) adv q Hcap' Hreq' Hlen Hmr).
+           destruct (slot_check (i + 1) rs mr _ adv q) as [[[mr1 clk1] sl] v].
+           destruct IH as [IH1 IH2]. split; [cbn; auto|]. intros Hv. cbn. auto.
+        -- specialize (IH mr (i + 1) clk adv q Hcap' Hreq' Hlen Hmr).
+           destruct (slot_check (i + 1) rs mr clk adv q) as [[[mr1 clk1] sl] v].
+           destruct IH as [IH1 IH2]. split; [cbn; auto|]. intros Hv. cbn. auto.
+      * split; [cbn; auto|discriminate].
+    + specialize (IH mr (i + 1) clk adv q Hcap' Hreq' Hlen Hmr).
+      destruct (slot_check (i + 1) rs mr clk adv q) as [[[mr1 clk1] sl] v].
+      destruct IH as [IH1 IH2]. split; [cbn; auto|]. intros Hv. cbn. split; [|auto].
+      intros _ k0 Hk0. congruence.
+Qed.
+
+(* ---- ConcurrencyStatSlot: +1 on pass, -1 on completion -------------------------------------------- *)
+
+Lemma conc_bump_spec delta res L L' r m q :
+  is_conc r = true -> (forall k, extract r q = Some k -> In k K /\ real_key k) ->
+  CI res L r m -> Pres q r m ->
+  (forall v, live_count res r v L' =
+             live_count res r v L + match extract r q with Some k => if k =? v then delta else 0 | None => 0 end) ->
+  (forall v, - two62 < live_count res r v L + delta < two62) ->
+  CI res L' r (conc_bump delta r m q).
+Proof.
+  intros Hc Hreq Hci Hpres HL Hrng _. destruct (Hci Hc) as [Hnd [Hincl Hcnt]].
+  unfold conc_bump. unfold is_conc in Hc. rewrite Hc.
+  destruct (extract r q) as [k|] eqn:Ex.
+  - destruct (Hreq k eq_refl) as [Hin Hr].
+    destruct (alookup k (m_conc m)) as [c|] eqn:Ec; [|exfalso; exact (Hpres Hc k Ex Ec)].
+    destruct (cnt_bump K k c (i64 (c + delta)) (m_conc m) Hin Hr Ec Hnd Hincl) as [H1 [H2 [H3 H4]]].
+    rewrite (get_present k c _ Hr Ec) in *. cbn [fst] in *. cbn [m_conc].
+    repeat split; auto. intros v. rewrite HL.
+    assert (Hck : c = live_count res r k L) by (rewrite <- Hcnt; unfold cnt; now rewrite Ec).
+    destruct (k =? v) eqn:E.
+    + assert (k = v) by lia. subst v. rewrite H3. specialize (Hrng k). unfold two62 in Hrng.
+      rewrite i64_small by lia. lia.
+    + rewrite (H4 v ltac:(lia)). rewrite Hcnt. lia.
+  - repeat split; auto. intros v. rewrite HL, Hcnt. lia.
+Qed.
+
+Lemma conc_bump_nonconc delta r m q : is_conc r = false -> conc_bump delta r m q = m.
+Proof. unfold is_conc, conc_bump. intros ->. reflexivity. Qed.
+
+Lemma conc_bump_all_spec delta res L L' rules : forall ms q,
+  req_in rules q -> all2 (CI res L) rules ms -> all2 (Pres q) rules ms ->
+  (forall r v, live_count res r v L' =
+               live_count res r v L + match extract r q with Some k => if k =? v then delta else 0 | None => 0 end) ->
+  (forall r v, - two62 < live_count res r v L + delta < two62) ->
+  all2 (CI res L') rules (conc_bump_all delta rules ms q).
+Proof.
+  induction rules as [|r rs IH]; intros ms q Hreq Hci Hpres HL Hrng; [destruct ms; exact I|].
+  destruct ms as [|m mr]; [exact I|]. cbn [all2 conc_bump_all] in *.
+  destruct Hci as [Hc1 Hc2]. destruct Hpres as [Hp1 Hp2]. split.
+  - destruct (is_conc r) eqn:Ec.
+    + apply (conc_bump_spec delta res L L' r m q Ec); auto.
+      intros k Hk. exact (Hreq r ltac:(left; reflexivity) Ec k Hk).
+    + intros H. congruence.
+  - apply IH; auto. intros r0 Hin. apply Hreq. right. exact Hin.
+Qed.
+
+Lemma all2_CI_ext res L L' rules ms :
+  (forall r v, live_count res r v L' = live_count res r v L) ->
+  all2 (CI res L) rules ms -> all2 (CI res L') rules ms.
+Proof.
+  intros H. apply all2_impl. intros r m _ Hci Hc. destruct (Hci Hc) as [H1 [H2 H3]].
+  repeat split; auto. intros v. now rewrite H.
+Qed.
+
+Lemma pres_of_count res L q rs : forall ms,
+  all2 (CI res L) rs ms -> (forall r k, extract r q = Some k -> 1 <= live_count res r k L) ->
+  all2 (Pres q) rs ms.
+Proof.
+  induction rs as [|r rs IH]; intros ms Hall H; [destruct ms; exact I|].
+  destruct ms as [|m mr]; [exact I|]. cbn [all2] in *. destruct Hall as [Ha Hb]. split; [|auto].
+  intros Hc k0 Hk0 Hnone. destruct (Ha Hc) as [_ [_ Hcnt]]. specialize (Hcnt k0).
+  unfold cnt in Hcnt. rewrite Hnone in Hcnt. specialize (H r k0 Hk0). lia.
+Qed.
+
+(* ---- histories ------------------------------------------------------------------------------------ *)
+
+Variable rules : Z -> list rule.
+Hypothesis Hcaps : forall res, caps_fit (rules res).
+
+Definition op_in (o : op) : Prop :=
+  match o with Enter res q => req_in (rules res) q | _ => True end.
+
+(* every live entry's own values lie in K (needed when it exits) *)
+Definition live_in (L : list (Z * (Z * req))) : Prop :=
+  Forall (fun e => req_in (rules (fst (snd e))) (snd (snd e))) L.
+
+Definition SI (s : state) : Prop :=
+  live_in (s_live s) /\ forall res, all2 (CI res (s_live s)) (rules res) (metrics_of rules s res).
+
+Lemma SI_init clk0 : SI (init clk0).
+Proof.
+  split; [constructor|]. intros res. unfold metrics_of. cbn. apply all2_init.
+  intros r _. cbn [m_conc metric0 lru_keys map]. split; [apply NoDup_nil|]. split; [intros x []|]. intros v. reflexivity.
+Qed.
+
+Lemma live_in_del k L : live_in L -> live_in (live_del k L).
+Proof.
+  unfold live_in. induction 1 as [|[k' e'] rest Hx Hr IH]; cbn [live_del]; [constructor|].
+  destruct (k =? k'); [exact Hr|constructor; assumption].
+Qed.
+
+Lemma live_in_lookup k L e : live_in L -> alookup k L = Some e -> req_in (rules (fst e)) (snd e).
+Proof.
+  unfold live_in. induction 1 as [|[k' e'] rest Hx Hr IH]; cbn [alookup]; [discriminate|].
+  destruct (k =? k'); [intros [= <-]; exact Hx|exact IH].
+Qed.
+
+Lemma step_SI adv s o n : op_in o -> SI s -> Z.of_nat (length (s_live s)) <= n -> n + 1 < two62 ->
+  SI (fst (step rules adv s o)) /\ Z.of_nat (length (s_live (fst (step rules adv s o)))) <= n + 1.
+Proof.
+  intros Ho [Hlive Hs] Hn Hbound. unfold two62 in *. unfold SI. destruct o as [ms|res q|k]; cbn [step].
+  - cbn [fst s_live]. split; [split; [exact Hlive|]|lia]. intros res. exact (Hs res).
+  - cbn [op_in] in Ho.
+    pose proof (slot_check_conc res (s_live s) (rules res) (metrics_of rules s res) 0 (s_clk s) adv q
+                  (Hcaps res) Ho ltac:(unfold two62; lia) (Hs res)) as H.
+    destruct (slot_check 0 (rules res) (metrics_of rules s res) (s_clk s) adv q) as [[[ms1 clk1] sl] v].
+    destruct H as [H1 H2]. destruct v as [|i tv|i]; cbn [fst snd s_live].
+    + split; [split|cbn [length]; lia].
+      * constructor; [cbn [fst snd]; exact Ho|exact Hlive].
+      * intros res'. rewrite metrics_of_aset. destruct (res' =? res) eqn:E.
+        -- assert (res' = res) by lia. subst res'.
+           apply (conc_bump_all_spec 1 res (s_live s)); auto.
+           ++ intros r v. cbn [live_count]. rewrite contrib_same. destruct (extract r q) as [k|]; [|lia].
+              destruct (k =? v); lia.
+           ++ intros r v. pose proof (live_count_range res r v (s_live s)). unfold two62. lia.
+        -- apply (all2_CI_ext res' (s_live s)); [|exact (Hs res')].
+           intros r v. cbn [live_count]. rewrite contrib_other_res by lia. lia.
+    + split; [split; [exact Hlive|]|lia]. intros res'. rewrite metrics_of_aset.
+      destruct (res' =? res) eqn:E; [|exact (Hs res')]. assert (res' = res) by lia. now subst.
+    + split; [split; [exact Hlive|]|lia]. intros res'. rewrite metrics_of_aset.
+      destruct (res' =? res) eqn:E; [|exact (Hs res')]. assert (res' = res) by lia. now subst.
+  - destruct (alookup k (s_live s)) as [[res q]|] eqn:El; cbn [fst snd s_live].
+    + pose proof (live_in_lookup k _ _ Hlive El) as Hreq. cbn [fst snd] in Hreq.
+      pose proof (live_del_length k (s_live s)) as Hdl.
+      split; [split; [now apply live_in_del|]|lia].
+      intros res'. rewrite metrics_of_aset. destruct (res' =? res) eqn:E.
+      * assert (res' = res) by lia. subst res'.
+        assert (HL : forall r v, live_count res r v (s_live s) =
+                     live_count res r v (live_del k (s_live s)) +
+                     match extract r q with Some k0 => if k0 =? v then 1 else 0 | None => 0 end).
+        { intros r v. rewrite (live_count_del res r v k (res, q) _ El), contrib_same. lia. }
+        apply (conc_bump_all_spec (-1) res (s_live s)); auto.
+        -- (* the cell of each value the entry occupies exists: its count is at least 1 *)
+           apply (pres_of_count res (s_live s) q); [exact (Hs res)|].
+           intros r k0 Hk0. specialize (HL r k0). rewrite Hk0, Z.eqb_refl in HL.
+           pose proof (live_count_range res r k0 (live_del k (s_live s))). lia.
+        -- intros r v. specialize (HL r v). destruct (extract r q) as [k0|]; [|lia]. destruct (k0 =? v); lia.
+        -- intros r v. pose proof (live_count_range res r v (s_live s)). unfold two62. lia.
+      * apply (all2_CI_ext res' (s_live s)); [|exact (Hs res')].
+        intros r v. rewrite (live_count_del res' r v k (res, q) _ El), contrib_other_res by lia. lia.
+    + split; [split; [exact Hlive|]|lia]. intros res. exact (Hs res).
+Qed.
+
+Lemma run_SI adv ops : forall s n, Forall op_in ops -> SI s ->
+  Z.of_nat (length (s_live s)) <= n -> n + Z.of_nat (length ops) < two62 ->
+  SI (fst (run rules adv s ops)).
+Proof.
+  induction ops as [|o rest IH]; intros s n Hops Hs Hn Hb; [exact Hs|].
+  inversion Hops as [|? ? Ho Hrest]; subst. cbn [length] in Hb.
+  destruct (step_SI adv s o n Ho Hs Hn ltac:(lia)) as [H1 H2]. cbn [run].
+  destruct (step rules adv s o) as [s1 ob]. cbn [fst] in *.
+  specialize (IH s1 (n + 1) Hrest H1 H2 ltac:(lia)). destruct (run rules adv s1 rest) as [s2 obs]. exact IH.
+Qed.
+
+(* counter(v) = number of live entries admitted with v, in every reachable state *)
+Theorem run_counter_exact adv clk0 ops :
+  Forall op_in ops -> Z.of_nat (length ops) < two62 ->
+  let s := fst (run rules adv (init clk0) ops) in
+  forall res i r m, nth_error (rules res) i = Some r -> nth_error (metrics_of rules s res) i = Some m ->
+  is_conc r = true -> forall v, cnt (m_conc m) v = live_count res r v (s_live s).
+Proof.
+  intros Hops Hb s res i r m Hr Hm Hc v.
+  pose proof (run_SI adv ops (init clk0) 0 Hops (SI_init clk0) ltac:(cbn; lia) ltac:(lia)) as [_ Hs].
+  fold s in Hs. destruct (all2_nth _ _ _ _ _ _ (Hs res) Hr Hm Hc) as [_ [_ H]]. apply H.
+Qed.
+
+(* ---- the decision on a resource guarded by concurrency rules only ---------------------------------- *)
+
+Definition admits (res : Z) (L : list (Z * (Z * req))) (q : req) (r : rule) : Prop :=
+  forall k, extract r q = Some k -> live_count res r k L < tok_count r k.
+
+Lemma slot_check_conc_decision res L rs : forall ms i clk adv q,
+  Forall (fun r => is_conc r = true) rs -> length ms = length rs ->
+  caps_fit rs -> req_in rs q -> Z.of_nat (length L) < two62 -> all2 (CI res L) rs ms ->
+  let '(_, _, sl, v) := slot_check i rs ms clk adv q in
+  sl = [] /\ (v = VPass <-> Forall (admits res L q) rs) /\ (forall j, v <> VSpin j).
+Proof.
+  induction rs as [|r rs IH]; intros ms i clk adv q Hconc Hlen Hcap Hreq HL Hall.
+  - cbn. destruct ms; repeat split; auto; try discriminate; constructor.
+  - destruct ms as [|m mr]; [discriminate|]. inversion Hconc as [|? ? Hc Hcr]; subst.
+    cbn [all2] in Hall. destruct Hall as [Hm Hmr].
+    assert (Hcap' : caps_fit rs) by (intros r0 Hin; apply Hcap; right; exact Hin).
+    assert (Hreq' : req_in rs q) by (intros r0 Hin; apply Hreq; right; exact Hin).
+    assert (Hlen' : length mr = length rs) by (cbn in Hlen; lia).
+    cbn [slot_check]. destruct (extract r q) as [k|] eqn:Ex.
+    + rewrite (perform_checking_conc r m _ k _ Hc).
+      destruct (Hreq r ltac:(left; reflexivity) Hc k Ex) as [Hin Hr].
+      destruct (conc_check_spec res L r m k Hc (Hcap r ltac:(left; reflexivity) Hc) Hin Hr HL Hm)
+        as [_ [_ Hd]].
+      destruct (conc_check r m k) as [m1 d]. cbn [snd] in Hd. subst d.
+      destruct (live_count res r k L <? tok_count r k) eqn:E.
+      * specialize (IH mr (i + 1) clk adv q Hcr Hlen' Hcap' Hreq' HL Hmr).
+        destruct (slot_check (i + 1) rs mr clk adv q) as [[[mr1 clk1] sl] v].
+        destruct IH as [IH1 [IH2 IH3]]. split; [exact IH1|]. split; [|exact IH3]. rewrite IH2. split.
+        -- intros H. constructor; [|exact H]. intros k0 Hk0. rewrite Ex in Hk0. inversion Hk0; subst. lia.
+        -- intros H. now inversion H.
+      * split; [reflexivity|]. split; [|discriminate]. split; [discriminate|].
+        intros H. inversion H as [|? ? Ha _]; subst. specialize (Ha k Ex). lia.
+    + specialize (IH mr (i + 1) clk adv q Hcr Hlen' Hcap' Hreq' HL Hmr).
+      destruct (slot_check (i + 1) rs mr clk adv q) as [[[mr1 clk1] sl] v].
+      destruct IH as [IH1 [IH2 IH3]]. split; [exact IH1|]. split; [|exact IH3]. rewrite IH2. split.
+      * intros H. constructor; [|exact H]. intros k0 Hk0. congruence.
+      * intros H. now inversion H.
+Qed.
+
+(* the statistics list of a resource always has one entry per rule *)
+Lemma slot_check_length rs : forall ms i clk adv q,
+  let '(ms', _, _, _) := slot_check i rs ms clk adv q in length ms' = length ms.
+Proof.
+  induction rs as [|r rs IH]; intros ms i clk adv q; [destruct ms; reflexivity|].
+  destruct ms as [|m mr]; [reflexivity|]. cbn [slot_check].
+  destruct (extract r q) as [k|].
+  - destruct (perform_checking r m (ms_of_ns clk) k (q_batch q)) as [m1 d]. destruct d as [|tv|ns|].
+    + specialize (IH mr (i + 1) clk adv q). destruct (slot_check (i + 1) rs mr clk adv q) as [[[mr1 c1] sl] v].
+      cbn [length]. now rewrite IH.
+    + reflexivity.
+    + destruct (0 <? ns).
+      * specialize (IH mr (i + 1) (if adv then u64 (clk + ns) else clk) adv q).
+        destruct (slot_check (i + 1) rs mr _ adv q) as [[[mr1 c1] sl] v]. cbn [length]. now rewrite IH.
+      * specialize (IH mr (i + 1) clk adv q). destruct (slot_check (i + 1) rs mr clk adv q) as [[[mr1 c1] sl] v].
+        cbn [length]. now rewrite IH.
+    + reflexivity.
+  - specialize (IH mr (i + 1) clk adv q). destruct (slot_check (i + 1) rs mr clk adv q) as [[[mr1 c1] sl] v].
+    cbn [length]. now rewrite IH.
+Qed.
+
+Lemma conc_bump_all_length delta rs : forall ms q, length (conc_bump_all delta rs ms q) = length ms.
+Proof.
+  induction rs as [|r rs IH]; intros ms q; [destruct ms; reflexivity|].
+  destruct ms as [|m mr]; [reflexivity|]. cbn [conc_bump_all length]. now rewrite IH.
+Qed.
+
+Definition LI (s : state) : Prop := forall res, length (metrics_of rules s res) = length (rules res).
+
+Lemma LI_init clk0 : LI (init clk0).
+Proof. intros res. unfold metrics_of. cbn. apply map_length. Qed.
+
+Lemma step_LI adv s o : LI s -> LI (fst (step rules adv s o)).
+Proof.
+  intros Hs. destruct o as [ms|res q|k]; cbn [step].
+  - exact Hs.
+  - pose proof (slot_check_length (rules res) (metrics_of rules s res) 0 (s_clk s) adv q) as H.
+    destruct (slot_check 0 (rules res) (metrics_of rules s res) (s_clk s) adv q) as [[[ms1 clk1] sl] v].
+    destruct v as [|i tv|i]; cbn [fst]; intros res'; rewrite metrics_of_aset;
+      (destruct (res' =? res) eqn:E; [|exact (Hs res')]); assert (res' = res) by lia; subst res';
+      rewrite ?conc_bump_all_length, H; exact (Hs res).
+  - destruct (alookup k (s_live s)) as [[res q]|]; cbn [fst]; [|exact Hs].
+    intros res'. rewrite metrics_of_aset. destruct (res' =? res) eqn:E; [|exact (Hs res')].
+    assert (res' = res) by lia. subst res'. rewrite conc_bump_all_length. exact (Hs res).
+Qed.
+
+Lemma run_LI adv ops : forall s, LI s -> LI (fst (run rules adv s ops)).
+Proof.
+  induction ops as [|o rest IH]; intros s Hs; [exact Hs|]. cbn [run].
+  pose proof (step_LI adv s o Hs) as H1. destruct (step rules adv s o) as [s1 ob]. cbn [fst] in H1.
+  specialize (IH s1 H1). destruct (run rules adv s1 rest) as [s2 obs]. exact IH.
+Qed.
+
+(* the reachable states *)
+Definition reach (adv : bool) (clk0 : Z) (ops : list op) : state := fst (run rules adv (init clk0) ops).
+
+Lemma reach_SI adv clk0 ops : Forall op_in ops -> Z.of_nat (length ops) < two62 ->
+  SI (reach adv clk0 ops) /\ LI (reach adv clk0 ops) /\
+  Z.of_nat (length (s_live (reach adv clk0 ops))) <= Z.of_nat (length ops).
+Proof.
+  intros Hops Hb. split; [|split].
+  - apply (run_SI adv ops (init clk0) 0 Hops (SI_init clk0)); cbn; lia.
+  - apply run_LI. apply LI_init.
+  - unfold reach.
+    assert (G : forall ops0 s, Z.of_nat (length (s_live (fst (run rules adv s ops0)))) <=
+                              Z.of_nat (length (s_live s)) + Z.of_nat (length ops0)).
+    { induction ops0 as [|o rest IH]; intros s; [cbn; lia|]. cbn [run].
+      assert (H1 : Z.of_nat (length (s_live (fst (step rules adv s o)))) <= Z.of_nat (length (s_live s)) + 1).
+      { destruct o as [ms|res q|k]; cbn [step]; [cbn; lia| |].
+        - destruct (slot_check 0 (rules res) (metrics_of rules s res) (s_clk s) adv q) as [[[ms1 clk1] sl] v].
+          destruct v; cbn [fst s_live length]; lia.
+        - destruct (alookup k (s_live s)) as [[res q]|]; cbn [fst s_live]; [|lia].
+          pose proof (live_del_length k (s_live s)). lia. }
+      destruct (step rules adv s o) as [s1 ob]. cbn [fst] in H1. specialize (IH s1).
+      destruct (run rules adv s1 rest) as [s2 obs]. cbn [fst length] in *. lia. }
+    specialize (G ops (init clk0)). cbn [init s_live length] in G. lia.
+Qed.
+
+(* the decision: on a resource guarded by concurrency rules only, an Entry is admitted iff for
+   every rule the live entries of the value it selects are fewer than that value's threshold *)
+Theorem run_decision adv clk0 ops res q :
+  Forall op_in ops -> Z.of_nat (length ops) < two62 -> req_in (rules res) q ->
+  Forall (fun r => is_conc r = true) (rules res) ->
+  let s := reach adv clk0 ops in
+  snd (step rules adv s (Enter res q)) = OPass [] <-> Forall (admits res (s_live s) q) (rules res).
+Proof.
+  intros Hops Hb Hq Hconc s. destruct (reach_SI adv clk0 ops Hops Hb) as [[_ Hs] [Hl Hlen]]. fold s in Hs, Hl, Hlen.
+  pose proof (slot_check_conc_decision res (s_live s) (rules res) (metrics_of rules s res) 0 (s_clk s) adv q
+                Hconc (Hl res) (Hcaps res) Hq ltac:(lia) (Hs res)) as H.
+  cbn [step]. destruct (slot_check 0 (rules res) (metrics_of rules s res) (s_clk s) adv q) as [[[ms1 clk1] sl] v].
+  destruct H as [-> [H2 H3]]. rewrite <- H2. destruct v as [|i tv|i]; cbn [snd]; split; intros H; try discriminate; auto.
+Qed.
+
+(* Exit gives back exactly the units of the exiting entry's own values: every cell of every
+   concurrency rule changes by minus the entry's contribution, nothing else changes *)
+Theorem run_release_own_unit adv clk0 ops k res q :
+  Forall op_in ops -> Z.of_nat (length ops) + 1 < two62 ->
+  let s := reach adv clk0 ops in
+  alookup k (s_live s) = Some (res, q) ->
+  let s' := fst (step rules adv s (Exit k)) in
+  forall res' i r m m', nth_error (rules res') i = Some r ->
+  nth_error (metrics_of rules s res') i = Some m -> nth_error (metrics_of rules s' res') i = Some m' ->
+  is_conc r = true -> forall v, cnt (m_conc m') v = cnt (m_conc m) v - contrib res' r v (res, q).
+Proof.
+  intros Hops Hb s El s' res' i r m m' Hr Hm Hm' Hc v.
+  destruct (reach_SI adv clk0 ops Hops ltac:(lia)) as [Hsi [_ Hlen]]. fold s in Hsi, Hlen.
+  destruct (step_SI adv s (Exit k) (Z.of_nat (length ops)) I Hsi Hlen Hb) as [[_ Hs'] _]. fold s' in Hs'.
+  destruct Hsi as [_ Hs].
+  destruct (all2_nth _ _ _ _ _ _ (Hs res') Hr Hm Hc) as [_ [_ H1]].
+  destruct (all2_nth _ _ _ _ _ _ (Hs' res') Hr Hm' Hc) as [_ [_ H2]].
+  rewrite H1, H2. assert (Hl : s_live s' = live_del k (s_live s)).
+  { subst s'. cbn [step]. rewrite El. reflexivity. }
+  rewrite Hl. rewrite (live_count_del res' r v k (res, q) _ El). lia.
+Qed.
+
+Theorem run_counter_zero adv clk0 ops :
+  Forall op_in ops -> Z.of_nat (length ops) < two62 ->
+  let s := fst (run rules adv (init clk0) ops) in
+  s_live s = [] ->
+  forall res i r m, nth_error (rules res) i = Some r -> nth_error (metrics_of rules s res) i = Some m ->
+  is_conc r = true -> forall v, cnt (m_conc m) v = 0.
+Proof.
+  intros Hops Hb s Hl res i r m Hr Hm Hc v.
+  rewrite (run_counter_exact adv clk0 ops Hops Hb res i r m Hr Hm Hc v). fold s. rewrite Hl. reflexivity.
+Qed.
+
+
+End Fits.
+
 
 (* ---- the recorded finding: the cell of a value in flight is evicted ------------------- *)
 
